@@ -1,6 +1,7 @@
 package main
 
 import (
+	"os"
 	"sort"
 	"fmt"
 	"go/token"
@@ -298,6 +299,15 @@ func (c *FnCtx) callWithContract(fr *Frame, st *State, fn *ssa.Function, spec *F
 	}
 	m := newModSet()
 	c.funcMods(fn, m, 0)
+	if os.Getenv("VF_DEBUG") != "" {
+		var ks []string
+		for k := range m.comps {
+			if strings.HasPrefix(k, "ghost$") {
+				ks = append(ks, k)
+			}
+		}
+		fmt.Fprintf(os.Stderr, "mods of %s: all=%v ghost=%v\n", name, m.all, ks)
+	}
 	c.havocSet(st, m, "call$"+fn.Name())
 	// the callback log is append-only: whatever the callee logged, earlier entries are as they were
 	if pc, ok := pre.heap[c.cbCallsComp()]; ok || true {
@@ -638,7 +648,13 @@ func (c *FnCtx) invoke(fr *Frame, st *State, recv Val, m *types.Func, args []Val
 		c.havocSet(st, mm, "inv$"+m.Name())
 		var vs []Val
 		for k := 0; k < resT.Len(); k++ {
-			vs = append(vs, c.fresh("inv$"+m.Name(), resT.At(k).Type(), st))
+			v := c.fresh("inv$"+m.Name(), resT.At(k).Type(), st)
+			if m.Name() == "Context" && typeKey(resT.At(k).Type()) == "context.Context" {
+				// a stream's / request's Context() is never nil (gRPC and net/http guarantee it)
+				c.assume(st, "(not (= (i-tag "+v.E+") 0))")
+				c.assumed["Context() of a stream never returns nil"] = true
+			}
+			vs = append(vs, v)
 		}
 		return tupleVal(resT, vs)
 	}
@@ -809,7 +825,18 @@ func shortIfaceName(t types.Type) string {
 	if n, ok := t.(*types.Named); ok {
 		return n.Obj().Name()
 	}
-	return shortTypeName(t)
+	// aliases (type X = grpc.ServerStreamingServer[T]) and unnamed types: the printed name without its package qualifier
+	n := shortTypeName(t)
+	if br := strings.Index(n, "["); br >= 0 {
+		if k := strings.LastIndex(n[:br], "."); k >= 0 {
+			return n[k+1:]
+		}
+		return n
+	}
+	if k := strings.LastIndex(n, "."); k >= 0 {
+		return n[k+1:]
+	}
+	return n
 }
 
 // objMods: `modifies p.f` where p is a contract parameter (or recv) of pointer-to-struct type names field f of that one
